@@ -543,6 +543,42 @@ func canonVal(x any) string {
 	return fmt.Sprintf("?%T", x)
 }
 
+// denoteObs restates a float → string observation by the value the returned text denotes (the
+// harness's own numeral grammar, denoteString), rounded to the source's width: `ok d<canonical float>`.
+// The property asks that the result "denotes the same mathematical value as the source" — the
+// spelling (1e+06 or 1000000) is not property-relevant. A text that denotes nothing stays `ok s<hex>`.
+func denoteObs(t string, v src, ob string) string {
+	if t != "str" || (v.kind != "f32" && v.kind != "f64") || !strings.HasPrefix(ob, "ok s") {
+		return ob
+	}
+	rest := ob[len("ok s"):]
+	tail := ""
+	if i := strings.IndexByte(rest, ' '); i >= 0 {
+		rest, tail = rest[:i], rest[i:]
+	}
+	text := ""
+	if rest != "-" {
+		b, err := hex.DecodeString(rest)
+		if err != nil {
+			return ob
+		}
+		text = string(b)
+	}
+	d := denoteString(text)
+	switch d.class {
+	case "rat":
+		if v.kind == "f32" {
+			g, _ := d.r.Float32()
+			return "ok d" + canonF(float64(g)) + tail
+		}
+		g, _ := d.r.Float64()
+		return "ok d" + canonF(g) + tail
+	case "nan", "+inf", "-inf":
+		return "ok d" + d.class + tail
+	}
+	return ob
+}
+
 func obs(x any, err error) string {
 	if err != nil {
 		return "err"
@@ -1097,6 +1133,10 @@ func checkFor(r *hx.Rng, t string, v src) chk {
 				return chk{op: "none", bkind: "n"} // length of non-ASCII text is C01's reading, not C17's
 			}
 		}
+		if v.kind == "f32" || v.kind == "f64" {
+			// the text of a float is judged by the value it denotes, not by its spelling (see denoteObs)
+			return chk{op: "none", bkind: "n"}
+		}
 		n := int64(r.Intn(6))
 		if v.kind == "str" {
 			n = int64(len(v.s)) + int64(r.Intn(3)) - 1
@@ -1158,7 +1198,7 @@ func runC17(c hx.Config) error {
 		pm := hx.Safely(func() { res, herr = callHelper(h, t, v.goValue()) })
 		ob := "panic " + strings.ReplaceAll(pm, "\n", " ")
 		if pm == "" {
-			ob = obs(res, herr)
+			ob = denoteObs(t, v, obs(res, herr))
 		}
 		o.Emit(fmt.Sprintf("c17 H %s %s %s %s #ptr=%v", h, t, v.tokens(), v.oracle(), v.ptr), ob)
 		o.Count("H:" + v.kind + "->" + t)
@@ -1166,6 +1206,7 @@ func runC17(c hx.Config) error {
 	}
 	emitS := func(t string, variant int, ck chk, v src) {
 		ob, cons := runSchema(t, variant, ck, v.goValue())
+		ob = denoteObs(t, v, ob)
 		o.Emit(fmt.Sprintf("c17 S %s %s %s %s #variant=%d ptr=%v", t, ck.tokens(), v.tokens(), v.oracle(), variant, v.ptr), ob+" "+cons)
 		o.Count("S:" + v.kind + "->" + t)
 		o.Count("outcome:" + strings.SplitN(ob, " ", 2)[0])
